@@ -17,3 +17,19 @@ pub open spec fn hex_encode(b: Seq<u8>) -> Seq<u8> {
     Seq::new((b.len() * 2) as nat, |k: int| if k % 2 == 0 { hex_digit_lc((b[k / 2] / 16) as int) } else { hex_digit_lc((b[k / 2] % 16) as int) })
 }
 
+// hex export followed by import is the identity
+pub proof fn lemma_hex_roundtrip(b: Seq<u8>)
+    ensures is_hex_str(hex_encode(b)), hex_decode(hex_encode(b)) =~= b
+{
+    let h = hex_encode(b);
+    assert forall|k: int| 0 <= k < h.len() implies is_hex_char(#[trigger] h[k]) by { }
+    assert(h.len() % 2 == 0);
+    assert forall|k: int| 0 <= k < b.len() implies #[trigger] hex_decode(h)[k] == b[k] by {
+        let hi = h[2 * k];
+        let lo = h[2 * k + 1];
+        assert(hi == hex_digit_lc((b[k] / 16) as int));
+        assert(lo == hex_digit_lc((b[k] % 16) as int));
+        assert(hex_val(hi) == b[k] / 16);
+        assert(hex_val(lo) == b[k] % 16);
+    }
+}
